@@ -7,6 +7,7 @@ import re
 from sa.engine.callgraph import calls_in, resolve_call
 from sa.engine.consts import UNKNOWN
 from sa.engine.context import Ctx
+from sa.engine.guards import path_conditions
 from sa.engine.loader import AnalysisError, anorm, dotted, is_noise, local_names, norm, short, walk_own
 from sa.engine.report import Finding, RuleReport
 from sa.rules.common import DT, X
@@ -357,6 +358,19 @@ def rule_route(ctx: Ctx) -> RuleReport:
             rep.fail(Finding("C16-ROUTE", DT, fi.qual, "no MIME fallback", "an attachment whose name has no known extension is no longer routed by its MIME type", line=t.lineno))
     else:
         rep.fail(Finding("C16-ROUTE", DT, fi.qual, "name-based routing missing", "the extractor is no longer chosen from the attachment's file name first", line=loop.lineno))
+    # 1b. nothing is skipped on the declared MIME type alone before the name had its say
+    if name_try:
+        for st in loop.body[:loop.body.index(name_try[0])]:
+            for cnt in [n for n in ast.walk(st) if isinstance(n, ast.Continue)]:
+                conds, opaque, _ = path_conditions(fi.node, cnt, terminals=("continue", "return", "break", "raise"))
+                cs = sorted({str(c) for c in conds} | set(opaque))
+                by_name = [c for c in cs if f"{LV}.filename" in c]
+                by_mime = [c for c in cs if "mime_type" in c]
+                if by_mime and not by_name:
+                    rep.fail(Finding("C16-ROUTE", DT, fi.qual, "skipped on MIME type alone: " + " and ".join(anorm(ast.parse(c, mode="eval").body, fi.node) for c in cs),
+                                     f"an attachment is skipped under `{' and '.join(cs)}` before its file name is looked at: report.docx sent as application/octet-stream (what many clients and gateways send) is never extracted, although read_file routes the same bytes by name", line=cnt.lineno))
+                else:
+                    rep.ok({"skip_before_routing": cs, "name_consulted": bool(by_name)})
     # 2. isolation + rewind
     ex_try = [t for t in tries if any(isinstance(n, ast.YieldFrom) for st in t.body for n in ast.walk(st))]
     if not ex_try:
